@@ -33,10 +33,42 @@ func tokensSubset(a, b map[string]bool) bool {
 }
 
 func publishHandlers(p *Program) []*ssa.Function {
-	var out []*ssa.Function
+	// the innermost functions of package admin that answer a request (they take the http.ResponseWriter) and hand a
+	// batch to the store — seen on their inlined views, so that the enqueue step may sit in an unexported helper of
+	// the package. A function that only dispatches to another such function is not a handler.
+	takesWriter := func(f *ssa.Function) bool {
+		for _, q := range f.Params {
+			if namedName(q.Type()) == "ResponseWriter" && namedPkgPath(q.Type()) == "net/http" {
+				return true
+			}
+		}
+		return false
+	}
+	qual := map[*ssa.Function]bool{}
+	var cands []*ssa.Function
 	for _, fn := range p.FuncsInPkg("admin") {
-		if len(allCalls(fn, isBatchEnqueue)) > 0 {
-			out = append(out, fn)
+		if fn.Parent() != nil || !takesWriter(fn) {
+			continue
+		}
+		if len(allCalls(p.View(fn), isBatchEnqueue)) > 0 {
+			qual[p.Orig(fn)] = true
+			cands = append(cands, fn)
+		}
+	}
+	var out []*ssa.Function
+	for _, f := range cands {
+		dispatcher := false
+		of := p.Orig(f)
+		fns := append([]*ssa.Function{of}, of.AnonFuncs...)
+		for _, g := range fns {
+			for _, ci := range allCalls(g, nil) {
+				if callee := ci.Common().StaticCallee(); callee != nil && unwrapBound(callee) != of && qual[unwrapBound(callee)] {
+					dispatcher = true
+				}
+			}
+		}
+		if !dispatcher {
+			out = append(out, of)
 		}
 	}
 	sort.Slice(out, func(i, j int) bool { return out[i].Pos() < out[j].Pos() })
@@ -47,7 +79,7 @@ func checkC15(c *Ctx) {
 	p := c.P
 	c.Rule("C15.R1", "preflight strictly before enqueue: in both publish handlers no enqueue call lies inside or before the per-item preflight loop, nothing leads from an enqueue back to it, and the duplicate-id lookup dominates every enqueue with its hit/err edges ending the request")
 	c.Rule("C15.R2", "the required guards dominate every item added to the prepared batch: after any error response no preparation or enqueue continues; the envelope builder succeeds only behind parsed timestamps, decoded payload within max_body, validated header map and headers within max_headers")
-	c.Rule("C15.R3", "atomic path: the type assertion to BatchEnqueuer dominates the batch call and the per-item fallback is only on its false edge; both default backends implement BatchEnqueuer; SQLite EnqueueBatch is one transaction and memory EnqueueBatch has no error return after a mutation")
+	c.Rule("C15.R3", "atomic path: the type assertion to BatchEnqueuer dominates the batch call, which is made once for the whole prepared list (not in a loop, not on a sub-slice) and the per-item fallback is only on its false edge; both default backends implement BatchEnqueuer; SQLite EnqueueBatch is one transaction and memory EnqueueBatch has no error return after a mutation")
 	c.Rule("C15.R4", "shape: the published envelope literal sets State=queued, the resolved route and a single target")
 	c.Rule("C15.R5", "policy wiring: each per-route publish hook of the admin server returns exactly the CompiledRoute flag of its name, and each scalar publish-policy field is copied from the compiled policy field of its name")
 	c.Rule("C15.R6", "resolves to an allowed target: the value a publish target resolver reports as resolved is an element of the allowed list, or the caller's value on a path that compared it == to an element")
@@ -55,7 +87,18 @@ func checkC15(c *Ctx) {
 	c.Rule("C15.R8", "the per-route hooks of the admin server (targets, publish switches, managed info, limits) select the compiled route by the same predicate — sibling agreement, so a name that exists for one exists for all")
 	c.Rule("C15.R9", "valid header names/values: the byte classes the header validator accepts, extracted as interval sets from the comparisons that follow each element read, are RFC 7230's tchar for names and non-control bytes (HTAB allowed, DEL not) for values — the classes net/http enforces at delivery")
 	checkHeaderByteClasses(c, "C15.R9")
-	hs := publishHandlers(p)
+	var hs []*ssa.Function
+	for _, f := range publishHandlers(p) {
+		if len(allCalls(f, isBatchEnqueue)) > 0 {
+			hs = append(hs, f)
+			continue
+		}
+		// the enqueue step sits in a helper: the handler with exactly the helpers on the way to the enqueue expanded
+		// (every other call — builder, duplicate lookup, response writers — stays a call, the rules find them by role)
+		hs = append(hs, p.ViewKeeping(f, func(callee *ssa.Function) bool {
+			return len(allCalls(p.View(callee), isAnyEnqueue)) == 0
+		}))
+	}
 	c.Floor("C15.R1", "publish_handlers", len(hs), 2)
 	var builder *ssa.Function
 	for _, fn := range hs {
@@ -242,6 +285,25 @@ func checkC15(c *Ctx) {
 					okA = false
 				}
 			}
+		}
+		// one call for the whole batch: the store's all-or-nothing guarantee holds per EnqueueBatch call, so a batch
+		// handed over in several calls (a loop over slices of it) keeps the earlier slices when a later one is refused
+		for _, e := range enq {
+			if !isBatchEnqueue(e) {
+				continue
+			}
+			why := ""
+			if h := loopHeaderOf(e.Block()); h != nil {
+				why = "the batch call sits in a loop"
+			}
+			args := e.Common().Args
+			if len(args) > 0 {
+				if sl, ok := args[len(args)-1].(*ssa.Slice); ok && (sl.Low != nil || sl.High != nil) {
+					why = "the batch call is given a sub-slice of the prepared items"
+				}
+			}
+			c.Check(why == "", "C15.R3", name+":whole batch in one store call", p.InstrPos(e), "EnqueueBatch called once, outside any loop, with the whole prepared list",
+				why+": the store's all-or-nothing guarantee is per EnqueueBatch call, so when a later part is refused (queue full, duplicate id) the parts already handed over stay enqueued although the request is answered with an error")
 		}
 		c.Check(okA, "C15.R3", name+":atomic-path-preferred", p.Pos(fn.Pos()), "EnqueueBatch behind the BatchEnqueuer assertion; per-item fallback only when it fails", "the per-item (non-atomic) path can be taken although the store implements BatchEnqueuer, or the batch call is not behind the assertion")
 	}
